@@ -77,7 +77,7 @@ func (q *InQueue) waitNonEmtpyQueue() error {
 		return io.EOF
 	}
 
-	wait := make(chan struct{}, 0)
+	wait := make(chan struct{}, 1) // buffered: the waiter may have left on its deadline; the notifier must not block (it runs under queueMutex)
 	q.queueNotifiers = append(q.queueNotifiers, func() {
 		wait <- struct{}{}
 	})
@@ -324,7 +324,7 @@ func (q *OutQueue) waitEmptyQueue() error {
 		return nil
 	}
 
-	wait := make(chan struct{}, 0)
+	wait := make(chan struct{}, 1) // buffered: the waiter may have left on its deadline; the notifier must not block (it runs under queueMutex)
 	q.queueNotifiers = append(q.queueNotifiers, func() {
 		wait <- struct{}{}
 	})
